@@ -2,5 +2,7 @@ import Driver.Win
 import Driver.Sess
 namespace DrvC02
 def run (c : Proto.Case) : Proto.CaseOut :=
-  if DrvWin.cfgStr c "kind" "tumbling" == "session" then DrvSess.run c else DrvWin.run c
+  let kind := DrvWin.cfgStr c "kind" "tumbling"
+  if kind == "sqlsession" then DrvSess.runSql c
+  else if kind == "session" then DrvSess.run c else DrvWin.run c
 end DrvC02
